@@ -1,6 +1,7 @@
 package hx
 
 import (
+	"bufio"
 	"bytes"
 	"context"
 	"crypto/sha1"
@@ -244,4 +245,43 @@ func (c *Client) Get(addr, host, uri string, hdr ...string) *Result {
 		h.Add(hdr[i], hdr[i+1])
 	}
 	return c.Do(Req{Method: "GET", Addr: addr, Host: host, URI: uri, Header: h})
+}
+
+// RawResult what a hand-written request got back
+type RawResult struct {
+	Err    error
+	Status int
+	Header http.Header
+	Body   []byte
+	Proto  string
+}
+
+// RawRequest writes the given bytes to addr as they are (any request line, protocol version or byte in the
+// target that net/http's client would refuse to send) and parses one response. closeAtOnce: write, then
+// close without reading anything (a client that goes away).
+func RawRequest(addr string, raw []byte, method string, closeAtOnce bool, timeout time.Duration) *RawResult {
+	res := &RawResult{}
+	conn, err := net.DialTimeout("tcp", addr, 5*time.Second)
+	if err != nil {
+		res.Err = err
+		return res
+	}
+	defer conn.Close()
+	conn.SetDeadline(time.Now().Add(timeout))
+	if _, err := conn.Write(raw); err != nil {
+		res.Err = err
+		return res
+	}
+	if closeAtOnce {
+		return res
+	}
+	resp, err := http.ReadResponse(bufio.NewReader(conn), &http.Request{Method: method})
+	if err != nil {
+		res.Err = err
+		return res
+	}
+	defer resp.Body.Close()
+	res.Status, res.Header, res.Proto = resp.StatusCode, resp.Header, resp.Proto
+	res.Body, res.Err = io.ReadAll(resp.Body)
+	return res
 }
